@@ -522,6 +522,19 @@ func c02Errors(run *mon.Run) {
 	}
 	for _, idk := range idKeys {
 		for idPos := 0; idPos < 3; idPos++ {
+			// a bad hasher at the SAME index as the identity key
+			{
+				pks := []crypto.PublicKey{pk, pk, pk}
+				pks[idPos] = idk
+				ms := [][]byte{[]byte("a"), []byte("b"), []byte("c")}
+				hs := []hash.Hasher{h, h, h}
+				hs[idPos] = nil
+				ok, err = crypto.VerifyBLSSignatureManyMessages(pks, sig, ms, hs)
+				check("nil-hasher-at-identity-key-index", ok, err, crypto.IsNilHasherError)
+				hs[idPos] = constHasher("bad", 0, 129)
+				ok, err = crypto.VerifyBLSSignatureManyMessages(pks, sig, ms, hs)
+				check("bad-hasher-size-at-identity-key-index", ok, err, crypto.IsInvalidHasherSizeError)
+			}
 			for pos := 0; pos < 3; pos++ {
 				if pos == idPos {
 					continue
